@@ -506,6 +506,7 @@ FUNCTIONALS = {
     "solve_ivp:rk38": Functional("solve_ivp:rk38", core_ivp, 2, _run_ivp("rk38")),
     "quad:7": Functional("quad:7", core_quad, 1, _run_quad(7)),
     "quad:20": Functional("quad:20", core_quad, 1, _run_quad(20)),
+    "quad:150": Functional("quad:150", core_quad, 1, _run_quad(150)),      # a point count beyond any internal small-n path
     "jac:mv": Functional("jac:mv", core_root, 1, _run_jac("mv")),
     "jac:rmv": Functional("jac:rmv", core_root, 1, _run_jac("rmv")),
     "jac:full": Functional("jac:full", core_root, 1, _run_jac("full")),
